@@ -11,7 +11,7 @@ PROP_ID = 'C06'
 LEVEL = 'exploration'
 BUDGET = {'quick': 3000, 'thorough': 80000}
 RULE = ('Histories: Hypothesis draws a frame with prior content (zeros / seeded noise through add_noise / '
-        'float32 data loaded from a .fil written by an independent SIGPROC writer), 1..4 signal descriptions as '
+        'float32 data loaded from a .fil written by an independent SIGPROC writer / a frame that was already injected as a member of a cadence), occasionally more than 2**16 channels wide, 1..4 signal descriptions as '
         'in C01 each with its own bounding-range kind (none, inside, clipped low/high, wholly below/above, '
         'reversed) and options, and a permutation. After every injection: data_after == (data_before + returned) '
         'in the frame dtype exactly; columns outside the range bit-identical and zero in the return; inside '
@@ -22,14 +22,21 @@ RULE = ('Histories: Hypothesis draws a frame with prior content (zeros / seeded 
 ASSUMPTIONS = ['boundary columns of a range (within half a channel of either end) may be included or not',
                'bounded vs unbounded agree to 1e-10 relative (different sub-grid origin under integrate_f_profile)',
                'randomised path/profile families carry their own seeds and are rebuilt per injection']
-REQUIRED_CLASSES = ['prior=zeros', 'prior=noise', 'prior=file32', 'range=inside', 'range=clip_low', 'range=clip_high',
+REQUIRED_CLASSES = ['prior=zeros', 'prior=noise', 'prior=file32', 'prior=via_cadence', 'wide_frame', 'range=inside', 'range=clip_low', 'range=clip_high',
                     'range=below', 'range=above', 'range=reversed', 'n>=2', 'asc', 'desc']
 
 
 @st.composite
 def strategy_(draw, tier):
     g = draw(gen.geometry(max_fchans=128 if tier == 'thorough' else 40, max_tchans=10, routes=('sizes', 'shape', 'data')))
-    n = draw(st.integers(1, 4))
+    wide = draw(st.integers(0, 24)) == 0
+    if wide:
+        # real spectrograms are 2**20 channels wide: sizes around and beyond 2**16 must behave like small ones
+        g['fchans'] = draw(st.sampled_from([65536 + 500, 2 ** 16, 70001, 2 ** 17 + 3]))
+        g['tchans'] = draw(st.integers(1, 2))
+        g['fch1'] = max(g['fch1'], 4.0 * g['fchans'] * g['df'] + 1.0)
+        g['fch1'] = min(g['fch1'], g['df'] * 2.0 ** 40)
+    n = draw(st.integers(1, 2 if wide else 4))
     injections = []
     for _ in range(n):
         # array bandpass / array path need per-range shapes: keep to forms valid under any range
@@ -38,7 +45,7 @@ def strategy_(draw, tier):
                                            {'kind': 'custom', 'a': 1.3}, {'kind': 'float', 'level': 0.4}])))
         injections.append(dict(sig=sg, opts=draw(S.opts_strategy()), range=draw(S.range_strategy())))
     perm = draw(st.permutations(list(range(n))))
-    return dict(g=g, prior=draw(st.sampled_from(['zeros', 'noise', 'noise', 'file32'])),
+    return dict(g=g, wide=wide, prior=draw(st.sampled_from(['zeros', 'noise', 'noise', 'file32', 'via_cadence'])),
                 prior_seed=draw(st.integers(0, 10 ** 6)), inj=injections, perm=list(perm))
 
 
@@ -62,6 +69,13 @@ def make_prior(stg, case, ctx):
         fr = stg.Frame(waterfall=path, seed=case['prior_seed'])
         return fr
     fr = gen.make_frame(stg, g, seed=case['prior_seed'])
+    if prior == 'via_cadence':
+        # the frame was earlier injected as the second member of a cadence (smeared, callable path)
+        first = gen.make_frame(stg, dict(g, t_start=g['t_start'] - 1000.0), seed=1)
+        cad = stg.Cadence([first, fr])
+        mid = float(fr.fs[len(fr.fs) // 2])
+        cad.add_signal(stg.constant_path(f_start=mid, drift_rate=0.3 * fr.df / fr.dt), stg.constant_t_profile(level=1.0),
+                       stg.gaussian_f_profile(width=3 * fr.df), doppler_smearing=True, smearing_subsamples=3)
     if prior == 'noise':
         fr.add_noise(x_mean=10.0, x_std=1.0, noise_type='gaussian')   # chi2 needs df*dt >= 1 (C11)
     return fr
@@ -115,6 +129,8 @@ def run_case(case, ctx):
     ok, fr = core.call(obs, 'prior', make_prior, stg, case, ctx)
     if not ok:
         return obs
+    if case.get('wide'):
+        obs.cls('wide_frame')
     obs.cls('prior=' + case['prior'], 'asc' if g['ascending'] else 'desc', 'n>=2' if len(case['inj']) >= 2 else 'n=1')
     ax = S.Axes(fr.fs, fr.ts, fr.df, fr.dt)
     initial = fr.data.copy()
@@ -143,6 +159,12 @@ def run_case(case, ctx):
             bad = np.argwhere(fr.data != want)
             obs.fail(f'additive:{case["prior"]}', f'{len(bad)} pixels differ, first {bad[0].tolist()}')
         compare_state(obs, fr, s0, f'inj{min(k, 1)}')
+        # asking for intensities must not re-estimate anything either
+        if fr.noise_std != 0:
+            core.call(obs, 'get_intensity', fr.get_intensity, 10.0)
+            core.call(obs, 'get_snr', fr.get_snr, 1.0)
+            core.call(obs, 'get_noise_stats', fr.get_noise_stats)
+            compare_state(obs, fr, s0, 'after_snr_query')
         # confinement
         rng = S.range_of(ax, inj['range'])
         if rng is not None:
